@@ -160,6 +160,8 @@ type Sched struct {
 	Visited func(nChoices int, key uint64) bool
 	// Trace enables a human readable step log in Result.TraceLog.
 	Trace bool
+	// NoPost switches the scheduling points after release operations off for this execution.
+	NoPost bool
 	// MemPoints: source sites whose plain-memory accesses are scheduling points.
 	MemPoints  map[string]bool
 	mem        map[uintptr]*wordInfo
@@ -379,7 +381,7 @@ var PostPoints = os.Getenv("VS_POST") != "0"
 // property's oracle at the cost of one preemption.
 func After(desc string, obj unsafe.Pointer) {
 	s := S
-	if s == nil || s.abort || !PostPoints || s.cur == nil {
+	if s == nil || s.abort || !PostPoints || s.NoPost || s.cur == nil {
 		return
 	}
 	Point(desc, obj)
